@@ -675,6 +675,11 @@ def parse_vc(path):
                     if not m2:
                         raise ExtractError(f'{path}: bad #abstract-let: {s2}')
                     fn.setdefault('abstract', []).append((m2.group(1), m2.group(2).strip()))
+                elif s2.startswith('#ascribe '):
+                    m2 = re.match(r'#ascribe\s+(\w+)\s*:\s*(.+)$', s2)
+                    if not m2:
+                        raise ExtractError(f'{path}: bad #ascribe: {s2}')
+                    fn.setdefault('ascribe', []).append((m2.group(1), m2.group(2).strip()))
                 elif s2.startswith('#proof-before '):
                     pat = s2[len('#proof-before '):].strip()
                     fn['proofs'].append(('before', pat, block('#end')))
@@ -765,6 +770,23 @@ def extract_fn(repo, spec, features):
         log.append({'step': 'R6', 'line': sf.line_of(T[a].start), 'abstracted_unverified': orig[:400], 'replaced_by': repl})
         dropped.append((T[a].start, T[e].start))
 
+    # ---- R5: type ascription on a `let` binding (`let mut v = Vec::new()` -> `let mut v: T = ..`).
+    # Semantically neutral: rustc rejects the unit if T is not the inferred type.
+    for (var, ty) in spec.get('ascribe', []):
+        hits = []
+        for j in range(bo + 1, bc):
+            if is_id(T[j], 'let') and alive(T[j]):
+                k = j + 1
+                if is_id(T[k], 'mut'):
+                    k += 1
+                if is_id(T[k], var) and is_p(T[k + 1], '='):
+                    hits.append(k)
+        if len(hits) != 1:
+            raise ExtractError(f'lost anchor: let {var} (ascribe) in {spec["name"]} ({len(hits)} matches)')
+        k = hits[0]
+        edits.add(T[k].end, T[k].end, f': {ty}', 'rewrite', 'R5 ascribe')
+        log.append({'step': 'R5', 'line': sf.line_of(T[k].start), 'ascribed': f'{var}: {ty}'})
+
     # ---- E5: signature
     # return type
     sig_ret = None
@@ -802,6 +824,16 @@ def extract_fn(repo, spec, features):
             raise ExtractError(f'lost anchor: loop {n_} of {spec["name"]} (body has {len(lps)})')
         li = lps[n_ - 1]
         b = find_block_open(sf, li + 1, bc)
+        m_it = re.match(r'\s*@iter\s+(\w+)\s*\n', inv)
+        if m_it:
+            # Verus ghost-iterator name:  `for x in NAME: expr`  (ghost-only syntax)
+            inv = inv[m_it.end():]
+            if not is_id(T[li], 'for'):
+                raise ExtractError(f'@iter on a non-for loop {n_} of {spec["name"]}')
+            k_in = li + 1
+            while not is_id(T[k_in], 'in'):
+                k_in = sf.pairs[k_in] + 1 if (T[k_in].kind == 'punct' and T[k_in].text in '([{') else k_in + 1
+            edits.add(T[k_in].end, T[k_in].end, f' {GB}{m_it.group(1)}: {GE}', 'ghost', f'loop {n_} iter name')
         edits.add(T[b].start, T[b].start, f'\n{GB}\n{inv}\n{GE}\n', 'ghost', f'loop {n_}')
     # a body loop without annotation is allowed (Verus will demand decreases) but recorded
     for idx, li in enumerate(lps, 1):
@@ -927,7 +959,11 @@ def extract_type(repo, spec, features):
             edits.add(T[j].start, T[e].start, '', 'drop', 'field vis')
     # E4': everything extracted lives in one module; normalise visibility to `pub`
     # (Verus requires types mentioned in trait-impl contracts to be visible everywhere)
-    edits.add(T[kw].start, T[kw].start, 'pub ', 'rewrite', 'vis')
+    pre_attrs = ''
+    for o in spec['opts']:
+        if o.startswith('reject-recursive='):   # Verus-only type-parameter annotation (no runtime meaning)
+            pre_attrs += ''.join(f'#[verifier::reject_recursive_types({x})] ' for x in o.split('=', 1)[1].split(','))
+    edits.add(T[kw].start, T[kw].start, pre_attrs + 'pub ', 'rewrite', 'vis')
     if body_open is not None and spec['tkind'] == 'struct':
         bc = sf.pairs[body_open]
         j = body_open + 1
